@@ -755,8 +755,10 @@ class Rule:
 
         """
         result = [Rule.IF, self.antecedent.text, Rule.THEN, self.consequent.text]
-        if not Op.is_close(self.weight, 1.0):
-            result.extend([Rule.WITH, Op.str(self.weight)])
+        weight = Op.str(self.weight)
+        # the weight is omitted when it is 1.0 either exactly or as printed
+        if not (Op.is_close(self.weight, 1.0) or Op.is_close(float(weight), 1.0)):
+            result.extend([Rule.WITH, weight])
         return " ".join(result)
 
     @text.setter
